@@ -1,6 +1,7 @@
 (* C19 adaptor: every element the semantic class-diagram writer (Model/UmlSem.v) draws lies in the domain of the
-   text-level theorem (Proofs/UmlBlobText.v, parse_top_q): well formed, brace free, no apostrophe in the printed bytes
-   (the writer never draws free text, IRaw: the narrow domain is proved and widened at the end by nb_nbq / sq_quote_ok). *)
+   text-level theorem (Proofs/UmlBlobText.v, parse_top_q): well formed (wf_top at the top: the name of an association may
+   hold colons; wf_node below) and free of braces outside quoted texts (nbq_node).  The third part of the domain, quote_ok
+   of the printed row, is a conjunct of sdiagram_ok itself (inert free text may hold apostrophes). *)
 From Coq Require Import String Ascii List Bool Arith Lia.
 From KV Require Import Lib.Str Lib.ODict Model.Vpp Model.VppWriter Model.Uml Model.UmlBlob Model.UmlWriter Model.UmlSem
                        Proofs.VppStr Proofs.UmlBlobDefs Proofs.UmlBlobStruct Proofs.UmlBlobFields Proofs.UmlBlobText Proofs.UmlBlobRound.
@@ -20,52 +21,6 @@ Lemma forallb_map_imp : forall (A B : Type) (P : A -> bool) (Q : B -> bool) (g :
 Proof.
   intros A B P Q g l H. induction l as [|x l IH]; intro Hl; [reflexivity|].
   cbn [forallb map] in *. apply andb_true_iff in Hl. destruct Hl as [H1 H2]. rewrite (H _ H1), (IH H2). reflexivity.
-Qed.
-
-(* ---------------------------------------------------------------- no apostrophe: a consequence of wf_node *)
-
-Definition sq_spec (x : wnode) : Prop := no_char SQ (print_node x) = true.
-
-Lemma nodes_sq : forall sep ns, no_char SQ sep = true -> Forall sq_spec ns -> no_char SQ (nodes_text sep ns) = true.
-Proof.
-  intros sep ns Hs. induction ns as [|x t IH]; intro H; [reflexivity|].
-  pose proof (Forall_inv H) as Hx. pose proof (Forall_inv_tail H) as Ht. unfold sq_spec in Hx.
-  destruct t as [|y t'].
-  - rewrite nodes_text_one. nc.
-  - rewrite nodes_text_more. specialize (IH Ht). nc.
-Qed.
-
-(* the semantic writer draws properties, reference lists and owned elements only: no free text *)
-Definition noraw_item (it : witem) : bool := match it with IRaw _ | IInert _ => false | _ => true end.
-
-Lemma item_sq : forall it, noraw_item it = true -> wf_item it = true -> Forall sq_spec (kids_of it) ->
-  no_char SQ (print_item it) = true.
-Proof.
-  intros it Hr Hw H. destruct it as [ws k v|ws k o sep c ids|ws k o sep c ns|s|s]; try discriminate Hr;
-    cbn [wf_item seg_of seg_ok] in Hw; split_and.
-  - destruct (valok_cases v ltac:(assumption)) as [Hp _].
-    unfold keyok in *. split_and. rewrite wsok_allc, ?plain_allc in *. cbn [print_item]. nc.
-  - pose proof (refs_text_cls sep ids) as Hr'. rewrite <- layok_allc in Hr'. specialize (Hr' ltac:(assumption) ltac:(assumption)).
-    unfold keyok in *. split_and. rewrite wsok_allc, ?plain_allc, ?layok_allc in *. cbn [print_item]. nc.
-  - cbn [kids_of] in H. rewrite print_children_eq.
-    unfold keyok in *. split_and. rewrite wsok_allc, ?plain_allc, ?layok_allc in *.
-    assert (Hs : no_char SQ sep = true) by nc.
-    pose proof (nodes_sq sep ns Hs H) as Hn. nc.
-Qed.
-
-Definition sq_item (it : witem) : bool := no_char SQ (print_item it).
-Definition sq_node (n : wnode) : bool := no_char SQ (print_node n).
-
-Lemma items_sq : forall its, forallb sq_item its = true -> no_char SQ (cat (map print_item its)) = true.
-Proof.
-  induction its as [|it r IH]; intro H; [reflexivity|].
-  cbn [forallb] in H. apply andb_true_iff in H. destruct H as [H1 H2]. unfold sq_item in H1.
-  cbn [map cat]. rewrite no_char_app, H1, (IH H2). reflexivity.
-Qed.
-
-Lemma sq_nodes_Forall : forall ns, forallb sq_node ns = true -> Forall sq_spec ns.
-Proof.
-  intros ns H. apply Forall_forall. intros x Hx. rewrite forallb_forall in H. exact (H x Hx).
 Qed.
 
 (* ---------------------------------------------------------------- texts, identifiers *)
@@ -203,45 +158,46 @@ Proof.
     apply gid_join2; [apply ident_gid; exact Hx | apply IH; [discriminate | exact Hr]].
 Qed.
 
-(* ---------------------------------------------------------------- layout strings *)
+(* ---------------------------------------------------------------- layout strings: a line break (CR LF or LF) and tabs *)
 
 Fixpoint tabrep (n : nat) : string := match n with O => "" | S m => String TAB (tabrep m) end.
 
-Lemma tabs_eq : forall n, tabs n = crlf ++ tabrep n.
+Lemma tabsn_eq : forall nl n, tabsn nl n = nl ++ tabrep n.
+Proof. intros nl n. reflexivity. Qed.
+
+Lemma nl_allc : forall nl, nl_ok nl = true -> allc wsc nl = true.
 Proof.
-  intro n. reflexivity.
+  intros nl H. unfold nl_ok in H. apply orb_true_iff in H. destruct H as [H|H]; apply String.eqb_eq in H; subst nl; reflexivity.
 Qed.
 
-Lemma tabs_allc : forall n, allc wsc (tabs n) = true.
+Lemma tabsn_allc : forall nl n, nl_ok nl = true -> allc wsc (tabsn nl n) = true.
 Proof.
-  intro n. rewrite tabs_eq, allc_app. apply andb_true_iff. split; [reflexivity|].
+  intros nl n H. rewrite tabsn_eq, allc_app, (nl_allc nl H). cbn [andb].
   induction n as [|n IH]; [reflexivity|]. cbn [tabrep allc]. rewrite IH. reflexivity.
 Qed.
 
-Lemma tabs_ws : forall n, wsok (tabs n) = true.
-Proof. intro n. rewrite wsok_allc. apply tabs_allc. Qed.
+Lemma tabsn_ws : forall nl n, nl_ok nl = true -> wsok (tabsn nl n) = true.
+Proof. intros nl n H. rewrite wsok_allc. apply tabsn_allc, H. Qed.
 
-Lemma crlf_ws : wsok crlf = true.
-Proof. reflexivity. Qed.
+Lemma nl_ws : forall nl, nl_ok nl = true -> wsok nl = true.
+Proof. intros nl H. rewrite wsok_allc. apply nl_allc, H. Qed.
 
-Lemma open_lay : forall n, layok (list_open n) = true.
-Proof. intro n. pose proof (tabs_allc n) as H. unfold list_open. rewrite layok_allc. cls. Qed.
-Lemma sep_lay : forall n, layok (list_sep n) = true.
-Proof. intro n. pose proof (tabs_allc n) as H. unfold list_sep. rewrite layok_allc. cls. Qed.
-Lemma close_lay : forall n, layok (list_close n) = true.
-Proof. intro n. pose proof (tabs_allc n) as H. unfold list_close. rewrite layok_allc. cls. Qed.
+Lemma open_lay : forall nl n, nl_ok nl = true -> layok (list_open nl n) = true.
+Proof. intros nl n H0. pose proof (tabsn_allc nl n H0) as H. unfold list_open. rewrite layok_allc. cls. Qed.
+Lemma sep_lay : forall nl n, nl_ok nl = true -> layok (list_sep nl n) = true.
+Proof. intros nl n H0. pose proof (tabsn_allc nl n H0) as H. unfold list_sep. rewrite layok_allc. cls. Qed.
+Lemma close_lay : forall nl n, nl_ok nl = true -> layok (list_close nl n) = true.
+Proof. intros nl n H0. pose proof (tabsn_allc nl n H0) as H. unfold list_close. rewrite layok_allc. cls. Qed.
 
 (* ---------------------------------------------------------------- good items *)
 
-Definition good (it : witem) : Prop := wf_item it = true /\ nb_full it = true /\ sq_item it = true.
+Definition good (it : witem) : Prop := wf_item it = true /\ nbq_full it = true.
 
 Lemma field_good : forall ws k v, wsok ws = true -> keyok k = true -> nobrace k = true -> valok v = true -> nobrace v = true ->
   good (IField ws k v).
 Proof.
-  intros ws k v H1 H2 H3 H4 H5.
-  assert (W : wf_item (IField ws k v) = true) by (cbn [wf_item seg_of seg_ok]; rewrite H1, H2, H4; reflexivity).
-  split; [exact W|]. split; [unfold nb_full; cbn [nb_item]; rewrite H3, H5; reflexivity|].
-  exact (item_sq (IField ws k v) eq_refl W (Forall_nil _)).
+  intros ws k v H1 H2 H3 H4 H5. unfold good, nbq_full. cbn [wf_item seg_of seg_ok nbq_item].
+  rewrite H1, H2, H3, H4, H5, orb_true_r. split; reflexivity.
 Qed.
 
 Lemma some_field_good : forall ws k v it, Some (IField ws k v) = Some it ->
@@ -252,21 +208,16 @@ Lemma refs_good : forall ws k o sep c ids, wsok ws = true -> keyok k = true -> n
   layok o = true -> layok sep = true -> layok c = true -> forallb idok ids = true -> forallb nobrace ids = true ->
   good (IRefs ws k o sep c ids).
 Proof.
-  intros ws k o sep c ids H1 H2 H3 H4 H5 H6 H7 H8.
-  assert (W : wf_item (IRefs ws k o sep c ids) = true) by (cbn [wf_item seg_of seg_ok]; rewrite H1, H2, H4, H5, H6, H7; reflexivity).
-  split; [exact W|]. split; [unfold nb_full; cbn [nb_item]; rewrite H3, H8; reflexivity|].
-  exact (item_sq (IRefs ws k o sep c ids) eq_refl W (Forall_nil _)).
+  intros ws k o sep c ids H1 H2 H3 H4 H5 H6 H7 H8. unfold good, nbq_full. cbn [wf_item seg_of seg_ok nbq_item].
+  rewrite H1, H2, H3, H4, H5, H6, H7, H8. split; reflexivity.
 Qed.
 
 Lemma children_good : forall ws k o sep c ns, wsok ws = true -> keyok k = true -> nobrace k = true ->
-  layok o = true -> layok sep = true -> layok c = true ->
-  forallb (fun x => wf_node x) ns = true -> forallb nb_node ns = true -> forallb sq_node ns = true ->
+  layok o = true -> layok sep = true -> layok c = true -> forallb (fun x => wf_node x) ns = true -> forallb nbq_node ns = true ->
   good (IChildren ws k o sep c ns).
 Proof.
-  intros ws k o sep c ns H1 H2 H3 H4 H5 H6 H7 H8 H9.
-  assert (W : wf_item (IChildren ws k o sep c ns) = true) by (cbn [wf_item seg_of seg_ok]; rewrite H1, H2, H4, H5, H6, H7; reflexivity).
-  split; [exact W|]. split; [unfold nb_full; cbn [nb_item]; rewrite H3, H8; reflexivity|].
-  exact (item_sq (IChildren ws k o sep c ns) eq_refl W (sq_nodes_Forall ns H9)).
+  intros ws k o sep c ns H1 H2 H3 H4 H5 H6 H7 H8. unfold good, nbq_full. cbn [wf_item seg_of seg_ok nbq_item].
+  rewrite H1, H2, H3, H4, H5, H6, H7, H8. split; reflexivity.
 Qed.
 
 Lemma text_field_good : forall ws k v it, wsok ws = true -> keyok k = true -> nobrace k = true -> vtxt v = true ->
@@ -291,6 +242,24 @@ Proof.
   apply refs_good; try assumption; try reflexivity; cbn [forallb]; [rewrite G1 | rewrite G2]; reflexivity.
 Qed.
 
+(* documentation: a text, or free text  ws documentation_plain="...";  (in the domain by raw_ok of the piece) *)
+Lemma chop_app_semi : forall x, chop (x ++ ";") = x.
+Proof.
+  induction x as [|c x IH]; [reflexivity|]. cbn [append]. change (chop (String c (x ++ ";"))) with
+    (match x ++ ";" with EmptyString => "" | _ => String c (chop (x ++ ";")) end).
+  rewrite IH. destruct x; reflexivity.
+Qed.
+
+Lemma doc_field_good : forall ws d it, wsok ws = true -> doc_ok ws d = true -> doc_field ws d = Some it -> good it.
+Proof.
+  intros ws d it Hws Hd E. destruct d as [v|t]; cbn [doc_field doc_ok] in *.
+  - refine (text_field_good _ _ _ _ Hws _ _ Hd E); vm_compute; reflexivity.
+  - replace (ws ++ "documentation_plain=" ++ q t ++ ";") with ((ws ++ "documentation_plain=" ++ q t) ++ ";") in E
+      by (rewrite !sapp_assoc; reflexivity).
+    injection E as E'. subst it. split_and.
+    split; [|reflexivity]. cbn [wf_item]. rewrite chop_app_semi, String.eqb_refl. cbn [andb]. assumption.
+Qed.
+
 Lemma idents_good : forall ids, forallb ident ids = true -> forallb idok ids = true /\ forallb nobrace ids = true.
 Proof.
   intros ids H. split; revert H; apply forallb_imp; intros x Hx; destruct (ident_parts x Hx) as [_ [_ [H1 H2]]]; assumption.
@@ -299,25 +268,42 @@ Qed.
 (* ---------------------------------------------------------------- the items of a layout, element nodes *)
 
 Definition noise_ok (l : list slot) : bool :=
-  forallb (fun s => match s with SNoise k v => noise_key k && noise_val v | STag _ => true end) l.
+  forallb (fun s => match s with SNoise k v => noise_key k && noise_val v | _ => true end) l.
 
 Lemma layout_noise : forall f l, layout_ok f l = true -> noise_ok l = true.
 Proof. intros f l H. unfold layout_ok in H. split_and. assumption. Qed.
 
-Lemma items_of_good : forall ws f l, wsok ws = true -> noise_ok l = true ->
-  (forall t it, f t = Some it -> good it) ->
-  forallb wf_item (items_of ws f l) = true /\ forallb nb_full (items_of ws f l) = true /\ forallb sq_item (items_of ws f l) = true.
+(* the inert properties: in the text domain as they are *)
+Definition inert_txt (l : list slot) : bool :=
+  forallb (fun s => match s with SInert it => item_text_ok it | _ => true end) l.
+
+Lemma inerts_txt : forall K l, inerts_ok K l = true -> inert_txt l = true.
 Proof.
-  intros ws f l Hws Hn Hf. induction l as [|s l IH]; [repeat split; reflexivity|].
+  intros K l. unfold inerts_ok, inert_txt. apply forallb_imp. intros [k v|t|it] H; try reflexivity.
+  unfold inert_ok in H. split_and. assumption.
+Qed.
+
+Lemma item_text_good : forall it, item_text_ok it = true -> good it.
+Proof.
+  intros it H. unfold item_text_ok in H. cbv zeta in H. rewrite wf_node_eq, nbq_node_eq in H. cbn [forallb] in H.
+  split_and. split; assumption.
+Qed.
+
+Lemma items_of_good : forall ws f l, wsok ws = true -> noise_ok l = true -> inert_txt l = true ->
+  (forall t it, f t = Some it -> good it) ->
+  forallb wf_item (items_of ws f l) = true /\ forallb nbq_full (items_of ws f l) = true.
+Proof.
+  intros ws f l Hws Hn Hi Hf. induction l as [|s l IH]; [split; reflexivity|].
   unfold noise_ok in Hn. cbn [forallb] in Hn. apply andb_true_iff in Hn. destruct Hn as [Hs Hl].
-  destruct (IH Hl) as [IH1 [IH2 IH3]]. unfold items_of. cbn [flat_map]. fold (items_of ws f l).
-  rewrite !forallb_app, IH1, IH2, IH3, !andb_true_r.
-  destruct s as [k v|t].
+  unfold inert_txt in Hi. cbn [forallb] in Hi. apply andb_true_iff in Hi. destruct Hi as [Hs' Hl'].
+  destruct (IH Hl Hl') as [IH1 IH2]. unfold items_of. cbn [flat_map]. fold (items_of ws f l). rewrite !forallb_app, IH1, IH2, !andb_true_r.
+  destruct s as [k v|t|it0].
   - apply andb_true_iff in Hs. destruct Hs as [Hk Hv].
     destruct (noise_key_good k Hk) as [K1 K2]. destruct (noise_val_good v Hv) as [V1 V2].
-    destruct (field_good ws k v Hws K1 K2 V1 V2) as [G1 [G2 G3]]. cbn [forallb]. rewrite G1, G2, G3. repeat split; reflexivity.
-  - destruct (f t) as [it|] eqn:E; [|repeat split; reflexivity].
-    destruct (Hf t it E) as [G1 [G2 G3]]. cbn [forallb]. rewrite G1, G2, G3. repeat split; reflexivity.
+    destruct (field_good ws k v Hws K1 K2 V1 V2) as [G1 G2]. cbn [forallb]. rewrite G1, G2. split; reflexivity.
+  - destruct (f t) as [it|] eqn:E; [|split; reflexivity].
+    destruct (Hf t it E) as [G1 G2]. cbn [forallb]. rewrite G1, G2. split; reflexivity.
+  - destruct (item_text_good it0 Hs') as [G1 G2]. cbn [forallb]. rewrite G1, G2. split; reflexivity.
 Qed.
 
 (* a header name: a text without ':' (UmlSem.name_ok demands this and that a given key does not occur in it) *)
@@ -344,39 +330,39 @@ Proof.
   destruct N as [N1 N2]. unfold headok. rewrite I3, I2, I5, N1, T3, T2, T5. repeat split; assumption || reflexivity.
 Qed.
 
-(* what is proved of every node the writer draws: the (narrow) domain of the text-level theorem *)
-Definition ngood (n : wnode) : Prop := wf_node n = true /\ nb_node n = true /\ sq_node n = true.
+(* what is proved of every node the writer draws *)
+Definition ngood (n : wnode) : Prop := wf_node n = true /\ nbq_node n = true.
 
 Lemma elem_good : forall id nm ty ws f l tl,
-  ident id = true -> hname_ok nm = true -> ident ty = true -> wsok ws = true -> wsok tl = true -> noise_ok l = true ->
+  ident id = true -> hname_ok nm = true -> ident ty = true -> wsok ws = true -> wsok tl = true ->
+  noise_ok l = true -> inert_txt l = true ->
   (forall t it, f t = Some it -> good it) ->
   ngood (WNode id nm ty (items_of ws f l) tl).
 Proof.
-  intros id nm ty ws f l tl Hi Hn Ht Hws Htl Hl Hf.
-  destruct (head_good id nm ty Hi Hn Ht) as [H1 [H2 [H3 H4]]]. destruct (items_of_good ws f l Hws Hl Hf) as [G1 [G2 G3]].
-  split; [|split].
+  intros id nm ty ws f l tl Hi Hn Ht Hws Htl Hl Hin Hf.
+  destruct (head_good id nm ty Hi Hn Ht) as [H1 [H2 [H3 H4]]]. destruct (items_of_good ws f l Hws Hl Hin Hf) as [G1 G2].
+  split.
   - rewrite wf_node_eq, H1, Htl, G1. reflexivity.
-  - rewrite nb_node_eq, H2, H3, H4, G2. reflexivity.
-  - pose proof (items_sq _ G3) as Hits. pose proof (head_pq _ _ _ H1) as Hhd. rewrite wsok_allc in Htl.
-    unfold sq_node. rewrite print_node_eq. nc.
+  - rewrite nbq_node_eq, H2, H3, H4, G2. reflexivity.
 Qed.
 
 (* a top-level node (the blob of a row): its NAME may hold colons (wf_top); this is what wf_drawn demands *)
-Definition tgood (n : wnode) : Prop := wf_top n = true /\ nb_node n = true /\ sq_node n = true.
+Definition tgood (n : wnode) : Prop := wf_top n = true /\ nbq_node n = true.
 
 Lemma ngood_tgood : forall n, ngood n -> tgood n.
-Proof. intros n [G1 [G2 G3]]. split; [exact (wf_node_wf_top n G1) | split; assumption]. Qed.
+Proof. intros n [G1 G2]. split; [exact (wf_node_wf_top n G1) | assumption]. Qed.
 
 Definition tname_ok (nm : option string) : bool := match nm with Some s => txt s | None => true end.
 
 Lemma elem_good_top : forall id nm ty ws f l tl,
-  ident id = true -> tname_ok nm = true -> ident ty = true -> wsok ws = true -> wsok tl = true -> noise_ok l = true ->
+  ident id = true -> tname_ok nm = true -> ident ty = true -> wsok ws = true -> wsok tl = true ->
+  noise_ok l = true -> inert_txt l = true ->
   (forall t it, f t = Some it -> good it) ->
   tgood (WNode id nm ty (items_of ws f l) tl).
 Proof.
-  intros id nm ty ws f l tl Hi Hn Ht Hws Htl Hl Hf.
-  destruct (elem_good id None ty ws f l tl Hi eq_refl Ht Hws Htl Hl Hf) as [W _].
-  destruct (items_of_good ws f l Hws Hl Hf) as [G1 [G2 G3]].
+  intros id nm ty ws f l tl Hi Hn Ht Hws Htl Hl Hin Hf.
+  destruct (elem_good id None ty ws f l tl Hi eq_refl Ht Hws Htl Hl Hin Hf) as [W _].
+  destruct (items_of_good ws f l Hws Hl Hin Hf) as [G1 G2].
   destruct (ident_parts id Hi) as [I1 [I2 [I3 I4]]]. destruct (ident_parts ty Ht) as [T1 [T2 [T3 T4]]].
   unfold idok in I3, T3. apply andb_true_iff in I3, T3. destruct I3 as [I3 I5]. destruct T3 as [T3 T5].
   assert (N : match nm with Some s => textok s | None => true end = true /\ nobrace (name_text nm) = true).
@@ -384,20 +370,16 @@ Proof.
     cbn [name_text]. rewrite (txt_textok s Hn), (txt_nobrace s Hn). split; reflexivity. }
   destruct N as [N1 N2].
   assert (HT : headok_top id nm ty = true) by (unfold headok_top; rewrite I3, I2, I5, N1, T3, T2, T5; reflexivity).
-  split; [|split].
+  split.
   - unfold wf_top. rewrite HT, W. reflexivity.
-  - rewrite nb_node_eq, I4, N2, T4, G2. reflexivity.
-  - destruct (headok_top_parts _ _ _ HT) as [[Pi _] [Pn [Pt _]]].
-    assert (Hhd : allc pqc (head_text id nm ty) = true) by (unfold head_text, qname, dq; destruct nm as [s|]; cls).
-    pose proof (items_sq _ G3) as Hits. rewrite wsok_allc in Htl.
-    unfold sq_node. rewrite print_node_eq. nc.
+  - rewrite nbq_node_eq, I4, N2, T4, G2. reflexivity.
 Qed.
 
 Lemma ngood_list : forall (A : Type) (P : A -> bool) (g : A -> wnode) l, (forall x, P x = true -> ngood (g x)) ->
   forallb P l = true ->
-  forallb (fun x => wf_node x) (map g l) = true /\ forallb nb_node (map g l) = true /\ forallb sq_node (map g l) = true.
+  forallb (fun x => wf_node x) (map g l) = true /\ forallb nbq_node (map g l) = true.
 Proof.
-  intros A P g l H Hl. split; [|split]; revert Hl; apply forallb_map_imp; intros x Hx; destruct (H x Hx) as [G1 [G2 G3]]; assumption.
+  intros A P g l H Hl. split; revert Hl; apply forallb_map_imp; intros x Hx; destruct (H x Hx) as [G1 G2]; assumption.
 Qed.
 
 Lemma no_items_good : forall (t : tag) (it : witem), (fun _ : tag => @None witem) t = Some it -> good it.
@@ -418,11 +400,11 @@ Proof. intros D l H. destruct l as [|x r]; [reflexivity | exact (tpath_ident D _
 Ltac hyp := match goal with H : ?g |- ?g => exact H end.
 Ltac side :=
   lazymatch goal with
-  | |- wsok (tabs _) = true => apply tabs_ws
-  | |- wsok crlf = true => apply crlf_ws
-  | |- layok (list_open _) = true => apply open_lay
-  | |- layok (list_sep _) = true => apply sep_lay
-  | |- layok (list_close _) = true => apply close_lay
+  | |- wsok (tabsn _ _) = true => apply tabsn_ws; hyp
+  | |- wsok _ = true => first [hyp | apply nl_ws; hyp]
+  | |- layok (list_open _ _) = true => apply open_lay; hyp
+  | |- layok (list_sep _ _) = true => apply sep_lay; hyp
+  | |- layok (list_close _ _) = true => apply close_lay; hyp
   | |- valok (q _) = true => apply valok_q; hyp
   | |- nobrace (q _) = true => apply nobrace_q; hyp
   | |- keyok _ = true => first [hyp | vm_compute; reflexivity]
@@ -439,7 +421,15 @@ Ltac item_fin E :=
   first [ refine (text_field_good _ _ _ _ _ _ _ _ E); side
         | refine (flag_field_good _ _ _ _ _ _ _ E); side
         | refine (ref_field_good _ _ _ _ _ _ _ _ E); side
+        | refine (doc_field_good _ _ _ _ _ E); side
         | refine (some_field_good _ _ _ _ E _ _ _ _ _); side ].
+
+(* the two layout facts of an element: its noise and its inert properties *)
+Ltac lay :=
+  lazymatch goal with
+  | |- noise_ok _ = true => eapply layout_noise; eassumption
+  | |- inert_txt _ = true => eapply inerts_txt; eassumption
+  end.
 
 Lemma param_item_good : forall D p, param_ok D p = true -> forall t it, param_item p t = Some it -> good it.
 Proof.
@@ -455,21 +445,19 @@ Qed.
 Lemma param_good : forall D p, param_ok D p = true -> ngood (tree_of_param p).
 Proof.
   intros D p H. pose proof (param_item_good D p H) as Hf. unfold param_ok in H. split_and.
-  unfold tree_of_param. apply elem_good; try side.
-  - cbn [hname_ok]. rewrite andb_true_iff. split; assumption.
-  - eapply layout_noise; eassumption.
+  unfold tree_of_param. apply elem_good; try side; try lay.
+  cbn [hname_ok]. rewrite andb_true_iff. split; assumption.
 Qed.
 
 Lemma params_good : forall D ps, forallb (param_ok D) ps = true ->
-  forallb (fun x => wf_node x) (map tree_of_param ps) = true /\ forallb nb_node (map tree_of_param ps) = true
-  /\ forallb sq_node (map tree_of_param ps) = true.
+  forallb (fun x => wf_node x) (map tree_of_param ps) = true /\ forallb nbq_node (map tree_of_param ps) = true.
 Proof. intros D ps. apply ngood_list. exact (param_good D). Qed.
 
 Lemma op_item_good : forall D o, op_ok D o = true -> forall t it, op_item o t = Some it -> good it.
 Proof.
   intros D o H t it E. unfold op_ok in H. split_and.
   assert (Hret : forallb ident (so_ret o) = true) by (apply (opt_tpath_ident D); assumption).
-  destruct (params_good D (so_params o) ltac:(assumption)) as [P1 [P2 P3]].
+  destruct (params_good D (so_params o) ltac:(assumption)) as [P1 P2].
   destruct t; cbn [op_item] in E; try discriminate E; try (item_fin E).
   - destruct (so_vis o) as [c|]; [|discriminate E].
     destruct (code_good c ltac:(assumption)) as [C1 C2]. item_fin E.
@@ -480,9 +468,8 @@ Qed.
 Lemma op_good : forall D o, op_ok D o = true -> ngood (tree_of_op o).
 Proof.
   intros D o H. pose proof (op_item_good D o H) as Hf. unfold op_ok in H. split_and.
-  unfold tree_of_op. apply elem_good; try side.
-  - apply ident_name_ok. assumption.
-  - eapply layout_noise; eassumption.
+  unfold tree_of_op. apply elem_good; try side; try lay.
+  apply ident_name_ok. assumption.
 Qed.
 
 Lemma attr_item_good : forall D a, attr_ok D a = true -> forall t it, attr_item a t = Some it -> good it.
@@ -498,25 +485,22 @@ Qed.
 Lemma attr_good : forall D a, attr_ok D a = true -> ngood (tree_of_attr a).
 Proof.
   intros D a H. pose proof (attr_item_good D a H) as Hf. unfold attr_ok in H. split_and.
-  unfold tree_of_attr. apply elem_good; try side.
-  - cbn [hname_ok]. rewrite andb_true_iff. split; assumption.
-  - eapply layout_noise; eassumption.
+  unfold tree_of_attr. apply elem_good; try side; try lay.
+  cbn [hname_ok]. rewrite andb_true_iff. split; assumption.
 Qed.
 
 Lemma member_good : forall D m, member_ok D m = true -> ngood (tree_of_member m).
 Proof.
-  intros D m H. destruct m as [o|a|id name noise]; cbn [member_ok tree_of_member] in *.
+  intros D m H. destruct m as [o|a|id name nl noise]; cbn [member_ok tree_of_member] in *.
   - exact (op_good D o H).
   - exact (attr_good D a H).
-  - split_and. apply elem_good; try side.
+  - split_and. apply elem_good; try side; try lay.
     + apply ident_name_ok. assumption.
-    + eapply layout_noise; eassumption.
     + exact no_items_good.
 Qed.
 
 Lemma members_good : forall D ms, forallb (member_ok D) ms = true ->
-  forallb (fun x => wf_node x) (map tree_of_member ms) = true /\ forallb nb_node (map tree_of_member ms) = true
-  /\ forallb sq_node (map tree_of_member ms) = true.
+  forallb (fun x => wf_node x) (map tree_of_member ms) = true /\ forallb nbq_node (map tree_of_member ms) = true.
 Proof. intros D ms. apply ngood_list. exact (member_good D). Qed.
 
 Lemma class_item_good : forall D c, class_ok D c = true -> forall t it, class_item c t = Some it -> good it.
@@ -526,7 +510,7 @@ Proof.
   { match goal with H : forallb _ (sc_stereos c) = true |- _ => revert H end.
     apply forallb_imp. intros x Hx. cbv beta in Hx. split_and. assumption. }
   destruct (idents_good _ Hst) as [S1 S2].
-  destruct (members_good D (sc_members c) ltac:(assumption)) as [M1 [M2 M3]].
+  destruct (members_good D (sc_members c) ltac:(assumption)) as [M1 M2].
   destruct t; cbn [class_item] in E; try discriminate E; try (item_fin E).
   - destruct (sc_members c) as [|m ms]; [discriminate E|]. inversion E. apply children_good; side.
   - destruct (sc_stereos c) as [|i r]; [discriminate E|]. inversion E. apply refs_good; side.
@@ -535,9 +519,8 @@ Qed.
 Lemma class_good : forall D c, class_ok D c = true -> ngood (tree_of_class c).
 Proof.
   intros D c H. pose proof (class_item_good D c H) as Hf. unfold class_ok in H. split_and.
-  unfold tree_of_class. apply elem_good; try side.
-  - cbn [hname_ok]. rewrite andb_true_iff. split; assumption.
-  - eapply layout_noise; eassumption.
+  unfold tree_of_class. apply elem_good; try side; try lay.
+  cbn [hname_ok]. rewrite andb_true_iff. split; assumption.
 Qed.
 
 Lemma package_item_good : forall D p, package_ok D p = true -> forall t it, package_item p t = Some it -> good it.
@@ -555,9 +538,8 @@ Qed.
 Lemma package_good : forall D p, package_ok D p = true -> ngood (tree_of_package p).
 Proof.
   intros D p H. pose proof (package_item_good D p H) as Hf. unfold package_ok in H. split_and.
-  unfold tree_of_package. apply elem_good; try side.
-  - apply ident_name_ok. assumption.
-  - eapply layout_noise; eassumption.
+  unfold tree_of_package. apply elem_good; try side; try lay.
+  apply ident_name_ok. assumption.
 Qed.
 
 Lemma inh_item_good : forall D i, inh_ok D i = true -> forall t it, inh_item i t = Some it -> good it.
@@ -571,9 +553,8 @@ Qed.
 Lemma inh_good : forall D i, inh_ok D i = true -> ngood (tree_of_inh i).
 Proof.
   intros D i H. pose proof (inh_item_good D i H) as Hf. unfold inh_ok in H. split_and.
-  unfold tree_of_inh. apply elem_good; try side.
-  - destruct (si_real i); vm_compute; reflexivity.
-  - eapply layout_noise; eassumption.
+  unfold tree_of_inh. apply elem_good; try side; try lay.
+  destruct (si_real i); vm_compute; reflexivity.
 Qed.
 
 (* ---------------------------------------------------------------- associations: the two ends, the association *)
@@ -593,81 +574,73 @@ Qed.
 Lemma end_good : forall D from e, end_ok D from e = true -> ngood (tree_of_end from e).
 Proof.
   intros D from e H. pose proof (end_item_good D from e H) as Hf. unfold end_ok in H. split_and.
-  unfold tree_of_end. apply elem_good; try side.
-  - eapply name_ok_hname; eassumption.
-  - eapply layout_noise; eassumption.
+  unfold tree_of_end. apply elem_good; try side; try lay.
+  eapply name_ok_hname; eassumption.
 Qed.
 
 Lemma assoc_item_good : forall D x, assoc_ok D x = true -> forall t it, assoc_item x t = Some it -> good it.
 Proof.
   intros D x H t it E. unfold assoc_ok in H. split_and.
-  destruct (end_good D true (sx_from x) ltac:(assumption)) as [F1 [F2 F3]].
-  destruct (end_good D false (sx_to x) ltac:(assumption)) as [T1 [T2 T3]].
+  destruct (end_good D true (sx_from x) ltac:(assumption)) as [F1 F2].
+  destruct (end_good D false (sx_to x) ltac:(assumption)) as [T1 T2].
   destruct t; cbn [assoc_item] in E; try discriminate E; try (item_fin E).
-  - inversion E. apply children_good; try side; cbn [forallb]; [rewrite F1 | rewrite F2 | rewrite F3]; reflexivity.
-  - inversion E. apply children_good; try side; cbn [forallb]; [rewrite T1 | rewrite T2 | rewrite T3]; reflexivity.
+  - inversion E. apply children_good; try side; cbn [forallb]; [rewrite F1 | rewrite F2]; reflexivity.
+  - inversion E. apply children_good; try side; cbn [forallb]; [rewrite T1 | rewrite T2]; reflexivity.
 Qed.
 
 (* the NAME of an association may hold colons: a top-level node only *)
 Lemma assoc_good : forall D x, assoc_ok D x = true -> tgood (tree_of_assoc x).
 Proof.
   intros D x H. pose proof (assoc_item_good D x H) as Hf. unfold assoc_ok in H. split_and.
-  unfold tree_of_assoc. apply elem_good_top; try side.
-  - destruct (sx_name x) as [n|]; [|reflexivity]. split_and. cbn [tname_ok]. assumption.
-  - eapply layout_noise; eassumption.
+  unfold tree_of_assoc. apply elem_good_top; try side; try lay.
+  destruct (sx_name x) as [n|]; [|reflexivity]. split_and. cbn [tname_ok]. assumption.
 Qed.
 
 (* ---------------------------------------------------------------- the diagram *)
 
+(* the domain of a drawn element, without the quote_ok conjunct *)
 Definition shape_ok (S : sdiagram) (se : string * selem) : bool :=
   match snd se with
   | EClass c => class_ok S c
   | EPackage p => package_ok S p
   | EInh i => inh_ok S i
   | EAssoc x => assoc_ok S x
-  | EOther id nm ty _ noise =>
-      ident id && match nm with Some n => txt n && no_char ":" n | None => true end && ident ty
+  | EOther id nm ty _ nl noise =>
+      nl_ok nl && ident id && match nm with Some n => txt n && no_char ":" n | None => true end && ident ty
       && negb (existsb (String.eqb ty) ["Class"; "Package"; "Association"; "Realization"; "Generalization"])
-      && layout_ok (fun _ => None) noise
+      && layout_ok (fun _ => None) noise && inerts_ok KNone noise
   end.
 
 Lemma shape_good : forall D se, shape_ok D se = true -> tgood (we_node (welem_of (snd se))).
 Proof.
   intros D [sid e] H. unfold shape_ok in H. cbn [snd] in *.
-  destruct e as [c|p|i|x|id nm ty par noise]; cbn [welem_of we_node].
+  destruct e as [c|p|i|x|id nm ty par nl noise]; cbn [welem_of we_node].
   - exact (ngood_tgood _ (class_good D c H)).
   - exact (ngood_tgood _ (package_good D p H)).
   - exact (ngood_tgood _ (inh_good D i H)).
   - exact (assoc_good D x H).
-  - apply ngood_tgood. split_and. apply elem_good; try side.
-    + eapply layout_noise; eassumption.
-    + exact no_items_good.
+  - apply ngood_tgood. split_and. apply elem_good; try side; try lay.
+    exact no_items_good.
 Qed.
 
 (* the referenced elements (not part of wf_drawn) are in the domain as well *)
 Lemma ref_good : forall r,
-  ident (sr_id r) && txt (sr_name r) && no_char ":" (sr_name r) && ident (sr_type r) && layout_ok (fun _ => None) (sr_noise r) = true ->
+  nl_ok (sr_nl r) && ident (sr_id r) && txt (sr_name r) && no_char ":" (sr_name r) && ident (sr_type r)
+  && layout_ok (fun _ => None) (sr_noise r) && inerts_ok KNone (sr_noise r) = true ->
   ngood (we_node (welem_of_ref r)).
 Proof.
-  intros r H. split_and. unfold welem_of_ref. cbn [we_node]. apply elem_good; try side.
+  intros r H. split_and. unfold welem_of_ref. cbn [we_node]. apply elem_good; try side; try lay.
   - cbn [hname_ok]. rewrite andb_true_iff. split; assumption.
-  - eapply layout_noise; eassumption.
   - exact no_items_good.
-Qed.
-
-(* the narrow domain (no free text, no apostrophe) lies in the wider one of the text-level theorem *)
-Lemma tgood_wide : forall n, tgood n -> wf_top n && nbq_node n && quote_ok (print_node n) = true.
-Proof.
-  intros n [G1 [G2 G3]]. unfold sq_node in G3. rewrite G1, (nb_nbq n G2), (sq_quote_ok _ G3). reflexivity.
 Qed.
 
 Lemma tree_of_wf_drawn : forall S : sdiagram, sdiagram_ok S = true -> wf_drawn (tree_of S) = true.
 Proof.
   intros S H. unfold sdiagram_ok in H. split_and.
   match goal with H : forallb _ (sd_shapes S) = true |- _ => rename H into Hs end.
-  change (forallb (shape_ok S) (sd_shapes S) = true) in Hs.
   unfold wf_drawn, tree_of. cbn [wd_drawn]. revert Hs. apply forallb_map_imp. intros se Hse. cbn [snd].
-  exact (tgood_wide _ (shape_good S se Hse)).
+  apply andb_true_iff in Hse. destruct Hse as [Hse Hq]. change (shape_ok S se = true) in Hse.
+  destruct (shape_good S se Hse) as [G1 G2]. rewrite G1, G2, Hq. reflexivity.
 Qed.
 
 Print Assumptions tree_of_wf_drawn.
